@@ -106,11 +106,14 @@ void hazard_eras<Traits>::guard_ptr<T, MarkedPtr>::acquire(const concurrent_ptr<
         prev_era = era;
         continue;
       }
+      // The HE instance is shared with other guards, so we need a new one. Allocate it first, so that
+      // this guard remains unchanged in case the allocation throws.
+      auto new_he = local_thread_data().alloc_hazard_era(era);
       he->release_guard();
-      he = nullptr;
+      he = new_he;
+    } else {
+      he = local_thread_data().alloc_hazard_era(era);
     }
-    assert(he == nullptr);
-    he = local_thread_data().alloc_hazard_era(era);
     prev_era = era;
   }
 }
@@ -139,11 +142,12 @@ bool hazard_eras<Traits>::guard_ptr<T, MarkedPtr>::acquire_if_equal(const concur
   if (he != nullptr && he->guards() == 1) {
     he->set_era(era);
   } else {
+    // allocate the new HE instance first, so that this guard remains unchanged in case the allocation throws
+    auto new_he = local_thread_data().alloc_hazard_era(era);
     if (he != nullptr) {
       he->release_guard();
     }
-
-    he = local_thread_data().alloc_hazard_era(era);
+    he = new_he;
   }
 
   this->ptr = p.load(std::memory_order_relaxed);
